@@ -111,6 +111,9 @@ func c20History(ctx *Ctx, i int, gens []cmdGen, u Universe) {
 			st.Argv = []string{pick(r, []string{"FLUSHDB", "FLUSHDB", "FLUSHALL"})}
 		case x == 5 && st.Conn != "":
 			st.Argv = []string{"SELECT", pick(r, []string{"-1", "x", ""})}
+		case x == 6 && st.Conn != "":
+			// handshake commands in the middle of a session (protocol 2 is kept, so replies stay comparable)
+			st.Argv = [][]string{{"HELLO", "2"}, {"HELLO"}, {"PING"}, {"ECHO", "x"}, {"HELLO", "2", "SETNAME", "n" + st.Conn}}[r.Intn(5)]
 		default:
 			st.Argv = gens[r.Intn(len(gens))](r, &u, in.Clk.NowNs())
 		}
@@ -186,6 +189,11 @@ func c20Persistence(ctx *Ctx, i int) {
 			}
 			continue
 		}
+		if i%2 == 1 && len(w.Ops) > 8 && r.Intn(10) == 0 {
+			// a log rewrite between writes (the next write may be in the same database as the last one)
+			w.Ops = append(w.Ops, pOp{Caller: caller, Argv: []string{"REWRITEAOF"}})
+			continue
+		}
 		argv := genWriteOp(r, clk.NowNs(), false, false)
 		if matchPersistFinding(argv) != "" {
 			continue
@@ -224,6 +232,12 @@ func c20Persistence(ctx *Ctx, i int) {
 				}
 				in.Do(argv...)
 				cmds = append(cmds, fmt.Sprintf("[db %d] %s", db, Step{Argv: argv}.String()))
+				if k == 1 && (i+gen)%2 == 0 {
+					// a rewrite in the middle of a generation: the writes that follow stay in their database
+					if rewriteAndWait(in) == "" {
+						cmds = append(cmds, "REWRITEAOF")
+					}
+				}
 			}
 			wantG := CanonDump(in.S.VerifDump(), clk.NowNs())
 			in.Close()
